@@ -38,6 +38,8 @@ pub const C01_KINDS: &[&str] = &[
 	"coinbase-inflated-excess-adjusted",
 	"hdr-offset-zero",
 	"hdr-offset-random",
+	"coinbase-foreign-proof",
+	"coinbase-garbage-proof",
 ];
 pub const C13_KINDS: &[&str] = &["immature-coinbase", "immature-with-mature-coinbase", "lock-height-future", "nrd-too-recent"];
 pub const C04_KINDS: &[&str] = &[
@@ -519,6 +521,23 @@ impl World {
 				let p0 = b.body.outputs[0].proof;
 				b.body.outputs[0].proof = b.body.outputs[1].proof;
 				b.body.outputs[1].proof = p0;
+			}
+			"coinbase-foreign-proof" | "coinbase-garbage-proof" => {
+				// every sum still holds and the coinbase amount equation is satisfied; the coinbase
+				// output alone carries a range proof that does not belong to its commitment (the valid
+				// proof of the parent block's coinbase output, or noise). A coinbase output is an output:
+				// without a valid proof its commitment may hide any amount, negative ones included.
+				let idx = b.body.outputs.iter().position(|o| o.is_coinbase())?;
+				if kind == "coinbase-foreign-proof" {
+					let donor = self.blocks[parent].block.outputs().iter().find(|o| o.is_coinbase())?.proof;
+					b.body.outputs[idx].proof = donor;
+				} else {
+					let mut p = b.body.outputs[idx].proof;
+					let n = p.plen.min(p.proof.len());
+					let junk = self.rng.bytes(n);
+					p.proof[..n].copy_from_slice(&junk);
+					b.body.outputs[idx].proof = p;
+				}
 			}
 			"coinbase-kernel-bad-signature" => {
 				// every sum still holds; only the signature ties the coinbase excess to a key
